@@ -13,6 +13,7 @@ def check(case):
     model = case.get('model', 'NRTL'); mode = case.get('mode', 'vacuum')
     c = procs.sanitize(dict(builtin=case.get('builtin', 'H2O_EtOH'), mode=mode, model=model, func='ideal_isothermal_process', N=3, **{k: v for k, v in case.get('env', {}).items() if k in ('T0', 'x0', 'Tp', 'pp', 'A', 'm0', 'dt')}))
     c['prec'] = 5e-5
+    if case.get('exp_units'): c['exp_units'] = case['exp_units']; c['T0'] = c.get('Texp', 323.15); c['Texp'] = c['T0']
     pv, mix, mem, dcs, cond, func, kw = procs.build(c)
     T = cond.initial_feed_temperature; Tp, pp = cond.permeate_temperature, cond.permeate_pressure
     xw = cond.initial_feed_composition.to_weight(mix)
@@ -57,4 +58,7 @@ def corpus(seed, n):
     for model in ('NRTL', 'UNIQUAC'):
         for mode in ('vacuum', 'temperature', 'pressure'):
             out.append(dict(model=model, mode=mode, typ=rng.choice(['weight', 'molar']), builtin=rng.choice(['H2O_EtOH', 'H2O_MeOH']), env=dict(T0=rng.uniform(310, 360), x0=rng.uniform(0.1, 0.5))))
-    return out[:max(2, min(n, 6))]
+    out = out[:max(2, min(n, 6))]
+    out.append(dict(model='NRTL', mode='vacuum', typ='weight', builtin='H2O_EtOH', env={}, exp_units='SI'))
+    out.append(dict(model='UNIQUAC', mode='temperature', typ='weight', builtin='H2O_EtOH', env={}, exp_units='GPU'))
+    return out
